@@ -229,3 +229,100 @@ theorem colC_hoistable (cls : Bool) : (cs : List MatchCase) → AllH (colC cls c
 end
 
 end PMV.HoistCollect
+
+namespace PMV.HoistCollect
+open PMV
+
+def total (g : List (Const × Nat)) : Nat := (g.map (·.2)).sum
+
+theorem sameValue_refl (c : Const) (h : hoistable c = true) : sameValue c c = true := by
+  cases c <;> simp [hoistable] at h <;> simp [sameValue]
+
+theorem sameValue_trans (a b c : Const) (h1 : sameValue a b = true) (h2 : sameValue b c = true) : sameValue a c = true := by
+  cases a <;> cases b <;> simp [sameValue] at h1 <;> cases c <;> simp [sameValue] at h2 ⊢
+  · exact h1.trans h2
+  · exact h1.trans h2
+
+theorem insertG_total (c : Const) : (g : List (Const × Nat)) → total (insertG c g) = total g + 1
+  | [] => by simp [insertG, total]
+  | (k, n) :: rest => by
+    simp only [insertG]
+    split
+    · simp [total]; omega
+    · have := insertG_total c rest
+      simp [total] at this ⊢; omega
+
+theorem insertG_keeps (c : Const) : (g : List (Const × Nat)) → ∀ e ∈ g, ∃ e' ∈ insertG c g, e'.1 = e.1
+  | [], e, h => by cases h
+  | (k, n) :: rest, e, h => by
+    simp only [insertG]
+    split
+    · rcases List.mem_cons.mp h with h | h
+      · exact ⟨(k, n + 1), List.mem_cons_self, by rw [h]⟩
+      · exact ⟨e, List.mem_cons_of_mem _ h, rfl⟩
+    · rcases List.mem_cons.mp h with h | h
+      · exact ⟨(k, n), List.mem_cons_self, by rw [h]⟩
+      · obtain ⟨e', he', hk⟩ := insertG_keeps c rest e h
+        exact ⟨e', List.mem_cons_of_mem _ he', hk⟩
+
+theorem insertG_covers (c : Const) (hc : hoistable c = true) : (g : List (Const × Nat)) → ∃ e ∈ insertG c g, sameValue e.1 c = true
+  | [] => ⟨(c, 1), by simp [insertG], sameValue_refl c hc⟩
+  | (k, n) :: rest => by
+    simp only [insertG]
+    split
+    · rename_i h; exact ⟨(k, n + 1), List.mem_cons_self, h⟩
+    · obtain ⟨e, he, hs⟩ := insertG_covers c hc rest
+      exact ⟨e, List.mem_cons_of_mem _ he, hs⟩
+
+/-- a key of the dictionary is a key that was there or the occurrence just added -/
+theorem insertG_keys (c : Const) : (g : List (Const × Nat)) → ∀ e ∈ insertG c g, e.1 = c ∨ ∃ e' ∈ g, e'.1 = e.1
+  | [], e, h => by simp [insertG] at h; exact Or.inl (by rw [h])
+  | (k, n) :: rest, e, h => by
+    simp only [insertG] at h
+    split at h
+    · rcases List.mem_cons.mp h with h | h
+      · exact Or.inr ⟨(k, n), List.mem_cons_self, by rw [h]⟩
+      · exact Or.inr ⟨e, List.mem_cons_of_mem _ h, rfl⟩
+    · rcases List.mem_cons.mp h with h | h
+      · exact Or.inr ⟨(k, n), List.mem_cons_self, by rw [h]⟩
+      · rcases insertG_keys c rest e h with h | ⟨e', he', hk⟩
+        · exact Or.inl h
+        · exact Or.inr ⟨e', List.mem_cons_of_mem _ he', hk⟩
+
+theorem groupsFrom_total : (l : List Const) → (g : List (Const × Nat)) → total (groupsFrom g l) = total g + l.length
+  | [], g => by simp [groupsFrom]
+  | c :: cs, g => by
+    simp only [groupsFrom, List.length_cons]
+    rw [groupsFrom_total cs, insertG_total]; omega
+
+theorem groupsFrom_keeps : (l : List Const) → (g : List (Const × Nat)) → ∀ e ∈ g, ∃ e' ∈ groupsFrom g l, e'.1 = e.1
+  | [], g, e, h => ⟨e, h, rfl⟩
+  | c :: cs, g, e, h => by
+    simp only [groupsFrom]
+    obtain ⟨e1, h1, k1⟩ := insertG_keeps c g e h
+    obtain ⟨e2, h2, k2⟩ := groupsFrom_keeps cs _ e1 h1
+    exact ⟨e2, h2, k2.trans k1⟩
+
+theorem groupsFrom_covers : (l : List Const) → (g : List (Const × Nat)) → (∀ c ∈ l, hoistable c = true) →
+    ∀ c ∈ l, ∃ e ∈ groupsFrom g l, sameValue e.1 c = true
+  | [], _, _, c, h => by cases h
+  | d :: ds, g, hh, c, h => by
+    simp only [groupsFrom]
+    rcases List.mem_cons.mp h with h | h
+    · subst h
+      obtain ⟨e1, h1, s1⟩ := insertG_covers c (hh c List.mem_cons_self) g
+      obtain ⟨e2, h2, k2⟩ := groupsFrom_keeps ds _ e1 h1
+      exact ⟨e2, h2, by rw [k2]; exact s1⟩
+    · exact groupsFrom_covers ds _ (fun x hx => hh x (List.mem_cons_of_mem _ hx)) c h
+
+theorem groupsFrom_keys : (l : List Const) → (g : List (Const × Nat)) → ∀ e ∈ groupsFrom g l, e.1 ∈ l ∨ ∃ e' ∈ g, e'.1 = e.1
+  | [], g, e, h => Or.inr ⟨e, h, rfl⟩
+  | c :: cs, g, e, h => by
+    simp only [groupsFrom] at h
+    rcases groupsFrom_keys cs _ e h with h | ⟨e1, h1, k1⟩
+    · exact Or.inl (List.mem_cons_of_mem _ h)
+    · rcases insertG_keys c g e1 h1 with h2 | ⟨e2, h2, k2⟩
+      · exact Or.inl (by rw [← k1, h2]; exact List.mem_cons_self)
+      · exact Or.inr ⟨e2, h2, k2.trans k1⟩
+
+end PMV.HoistCollect
